@@ -561,7 +561,7 @@ def run(ctx):
     if ctx.replay:
         cases = [ctx.replay["case"]] if "case" in ctx.replay else [d["case"] for d in ctx.replay.get("disagreements", [])]
     elif ctx.quick():
-        cases = build_cases(ctx, 900, 60, 60, 500)
+        cases = build_cases(ctx, 600, 45, 45, 400)
     else:
         cases = build_cases(ctx, 9000, 400, 500, 5000)
     stats, distinct = evaluate(ctx, cases)
